@@ -252,6 +252,15 @@ func (u *VerifUniverse) CallUnknown(g *EscapeGraph, args []int) {
 	g.CallUnknown(ns, nil, "verif")
 }
 
+// CloneReachable runs the real CloneReachable from the given root nodes.
+func (u *VerifUniverse) CloneReachable(g *EscapeGraph, roots []int) *EscapeGraph {
+	var ns []*Node
+	for _, a := range roots {
+		ns = append(ns, u.Nodes[a])
+	}
+	return g.CloneReachable(ns)
+}
+
 type verifLoadOp struct{ op string }
 
 // VerifWellFormed runs the package's own wellFormedEscapeGraph.
